@@ -14,24 +14,24 @@ NOTE = ("Static analysis of /repo's current working tree only (Python ast, rustc
         "stdlib datetime/calendar/zoneinfo semantics, the frozen idiom and intentional-drop tables in /verif/pvs.")
 
 VALUE_RULES = {
-    "C01": "Value rules: from_timestamp tabulated (UTC fields tagged UTC, converted to the requested zone), _safe_timezone decided per kind of argument on the function's leaves, ASTIMEZONE.tabulated (astimezone evaluated with super() answered by the standard library: same fields, instant and utcoffset as the native answer). UNITS.int_timestamp (tabulated) runs the int_timestamp property on aware instances of both folds, both sides of 1970, year 1 and 9999.",
+    "C01": "Value rules: from_timestamp tabulated (UTC fields tagged UTC, converted to the requested zone), _safe_timezone decided per kind of argument on the function's leaves, ASTIMEZONE.tabulated (astimezone evaluated with super() answered by the standard library: same fields, instant and utcoffset as the native answer). UNITS.int_timestamp (tabulated) runs the int_timestamp property on aware instances of both folds, both sides of 1970, year 1 and 9999. INSTANCE.tabulated runs DateTime.instance and _safe_timezone on aware standard-library values (fixed offsets, zoneinfo, a nameless zone with an offset change); REPLACE.tabulated runs replace() / set() with a recording create().",
     "C02": "Value rules: CONVERT.tabulated runs Timezone/FixedTimezone.convert and .datetime on stdlib values with a scenario tzinfo (gaps and overlaps of 30 min, 1 h, a whole day, both folds, raise flag); LOCAL.env runs _tz_from_env. CREATE.tabulated runs DateTime.create with a recording zone: what convert() receives (naive wall time, fold, flag) and that the instance takes every field, tzinfo and fold of its answer.",
     "C03": "Value rules: ADD.tabulated (helpers.add_duration on stdlib values, ~700 cases) and SHIFT.tabulated (DateTime/Date add and subtract interpreted in a wall-clock world with one skip/repeat transition, ~3200 cases).",
     "C04": "Value rules: ADD.tabulated and SHIFT.tabulated (see C03; amounts given by keyword and by position: add(*a) == subtract(*-a)); the operand-kind arms of + and - are read off function leaves. DELTA.tabulated runs the `+ delta` / `- delta` helpers of DateTime and Date with an Interval, a Duration (also negated / scaled) and native timedeltas on an instance whose add() / subtract() record their amounts; ARITH.tabulated decides Duration.__neg__.",
     "C05": "Value rules: LENGTH.tabulated runs Interval.__new__ on stdlib and pendulum-typed stubs (zoneinfo pairs inside repeated/skipped hours, zero-offset zones, fixed offsets, naive, dates, spans up to 9998 years - exact below 2**33 s, within the 64 us the statement allows beyond); DIRECTION.tabulated runs -/diff(). ORDER.tabulated runs interval._is_after on standard-library values inside a repeated hour (both folds, one and two tzinfo objects), naive values and dates.",
-    "C06": "Value rules: DIFF.tabulated runs the pure-Python precise_diff on ordered pairs of stdlib values (a + (b - a) == b, canonical ranges, reversal); the month-borrow branch of both back ends and the Rust date roller are tabulated from path summaries; LENGTH.exact (the Duration behind remaining_seconds / microseconds is built from the exact difference, spans up to 9998 years); DIRECTION.tabulated (b - a with a native operand on either side).",
+    "C06": "Value rules: DIFF.tabulated runs the pure-Python precise_diff on ordered pairs of stdlib values (a + (b - a) == b, canonical ranges, reversal); the month-borrow branch of both back ends and the Rust date roller are tabulated from path summaries; LENGTH.exact (the Duration behind remaining_seconds / microseconds is built from the exact difference, spans up to 9998 years); DIRECTION.tabulated (b - a with a native operand on either side). INIT.tabulated runs Interval.__init__ on pendulum and standard-library end points (the swap of an absolute interval, what precise_diff receives); MEMO.instants: no memoisation keyed by aware datetimes of a function that decomposes them.",
     "C07": "Value rules: PYISO.tabulated runs the pure-Python parse_iso8601 and RSISO.tabulated the MIR of the compiled parser (pvs/mirexec.py, from python::parsing::parse_iso8601 down) on one table of strings (117; every day of ten years in six forms in the thorough tier); RSWEEK.tabulated; offset parsers of both back ends tabulated (a valid offset without an accepting path counts as rejected).",
     "C08": "Value rules (formatter world, rules/fmtstub.py: Formatter.format / parse, Locale and the locale literals evaluated by the checker's interpreter): RENDER.tabulated (every documented token and token sequences with escapes x DateTimes x offsets against the documented rendering computed from the standard library), ROUNDTRIP.tabulated (24 full formats, timestamps, zone names, month and day names of all 27 locales), NOWFILL.tabulated, NOMATCH.tabulated, WEEKDAY.tabulated; offset rendering / parsing tabulated.  Known finding: weekday token d (0 = Sunday when formatted, 0 = Monday when parsed).",
     "C09": "Value rules: DIVMOD.tabulated runs the whole Duration/AbsoluteDuration constructors on instance stubs (stdlib timedelta as base class); RADIX.tabulated the lazily cached digits; STATE-COMPLETE.tabulated the copy/pickle state. SIGNATURE.tabulated compares the recorded constructor arguments.",
     "C10": "Value rules: ARITH.tabulated runs every operator of Duration on instance stubs and native timedeltas against the same operation on stdlib timedeltas.",
     "C11": "Value rules: DIRECTION.tabulated (- between values, diff()), NATIVE.tabulated (astimezone, Date.today / fromtimestamp / fromordinal evaluated with super() answered by the standard library), the replace()/set() funnel and instance() reconstruction shared with C01/C02.",
-    "C12": "Value rules: UNIT.tabulated runs start_of/end_of and every helper in a wall-clock world (9 units x dates x times x both folds x zone transitions x 7 week configurations) against the checker's own calendar arithmetic.",
+    "C12": "Value rules: UNIT.tabulated runs start_of/end_of and every helper in a wall-clock world (9 units x dates x times x both folds x zone transitions x 7 week configurations) against the checker's own calendar arithmetic. SETTER.tabulated runs week_starts_at / week_ends_at.",
     "C13": "Value rules: PYDUR.tabulated runs the pure-Python duration parser and RSDUR.tabulated the MIR of the compiled one (pvs/mirexec.py) on one table of strings (88: every designator, fractions whose carry does not stop at a whole second, every repeated / out-of-order designator; 1200 generated strings in the thorough tier); INTERVAL.tabulated runs parser._parse on the three interval forms; Rust fraction radix by MIR dataflow.",
     "C14": "Value rules: STATE-COMPLETE.tabulated rebuilds values from __reduce_ex__/__deepcopy__/__getinitargs__ evaluated on instance stubs (Duration, DateTime, Time, FixedTimezone). For Duration and AbsoluteDuration the constructor call produced by __reduce__ / __deepcopy__ is evaluated in turn and the rebuilt instance compared field by field (timedelta value, components, sign).",
     "C15": "Value rules: PRIM.tabulated runs is_leap/days_in_year/is_long_year/week_day/local_time of _helpers.py against the standard library (all years in the thorough tier); RSPRIM.tabulated evaluates the MIR path summaries of the compiled versions the same way.",
-    "C16": "Value rules: CALENDAR.tabulated runs next/previous/first_of/last_of/nth_of in a calendar world (dates, time of day to the microsecond, fold) over every month shape, quarters, leap years, all weekdays, n past the end of the unit, keep_time and skipped/repeated midnights.",
+    "C16": "Value rules: CALENDAR.tabulated runs next/previous/first_of/last_of/nth_of in a calendar world (dates, time of day to the microsecond, fold) over every month shape, quarters, leap years, all weekdays, n past the end of the unit, keep_time and skipped/repeated midnights. The first and last month / quarter / year of the calendar (0001-01, 9999-12) are among the instances.",
     "C17": "Value rules: CAST-UNION by running _parse_iso8601_interval on every combination of half kinds; PYISO / PYDUR and RSISO / RSDUR tabulations on the same tables (both back ends: the same values, refused strings a ValueError, never another exception or a panic). CHAIN.tabulated runs parsing.parse -> _parse with the three parsers and dateutil as stubs over every combination of acceptance / refusal, strict / non-strict.",
-    "C18": "Value rules: HUMAN.tabulated runs DifferenceFormatter.format on difference stubs x flags x locale shapes (it also yields the key templates and how each is filled - by position and / or by name - which PLACEHOLDERS checks in all locales); INWORDS.tabulated; RADIX.tabulated.",
+    "C18": "Value rules: HUMAN.tabulated runs DifferenceFormatter.format on difference stubs x flags x locale shapes (it also yields the key templates and how each is filled - by position and / or by name - which PLACEHOLDERS checks in all locales); INWORDS.tabulated; RADIX.tabulated. ORDINALIZE.tabulated runs Locale.ordinalize on the data of every locale for 0..130, 200, 1000.",
     "C19": "Value rules: RANGE.tabulated runs the generator Interval.range, __iter__ and __contains__ on interval stubs (an empty interval is false, like the timedelta it is; membership probed with pendulum and native values); SHIFT/ADD tabulations for the steps (amounts also by position).",
     "C20": "Value rules: TIME.tabulated runs every arithmetic method of Time on Time stubs and native operands; the Duration/AbsoluteDuration constructors behind diff() are tabulated.",
 }
